@@ -12,114 +12,100 @@ open LccModel.Prepare
 theorem isOk_iff {ε α : Type} (x : Except ε α) : x.isOk = true ↔ ∃ r, x = .ok r := by
   cases x <;> simp [Except.isOk, Except.toBool]
 
-/-! ### `dictSet` -/
+/-! ### `dictAdd` -/
 
-theorem mem_keys_dictSet (d : List (String × String)) (k v x : String) :
-    x ∈ (dictSet d k v).map (·.1) ↔ x ∈ d.map (·.1) ∨ x = k := by
+/-- the dict holds attribute `n` under fixture name `x` -/
+def Has (d : List (String × List String)) (x n : String) : Prop := ∃ vs, (x, vs) ∈ d ∧ n ∈ vs
+
+theorem mem_keys_dictAdd (d : List (String × List String)) (k v x : String) :
+    x ∈ (dictAdd d k v).map (·.1) ↔ x ∈ d.map (·.1) ∨ x = k := by
   induction d with
-  | nil => simp [dictSet]
+  | nil => simp [dictAdd]
   | cons kv rest ih =>
-    obtain ⟨k', v'⟩ := kv
-    unfold dictSet
+    obtain ⟨k', vs⟩ := kv
+    unfold dictAdd
     by_cases h : k' = k
     · subst h; simp only [if_true, List.map_cons, List.mem_cons]; grind
     · simp only [if_neg h, List.map_cons, List.mem_cons, ih]; grind
 
-theorem mem_dictSet (d : List (String × String)) (k v : String) (p : String × String) :
-    p ∈ dictSet d k v → p ∈ d ∨ p = (k, v) := by
+theorem dictAdd_nodup (d : List (String × List String)) (k v : String) (h : (d.map (·.1)).Nodup) :
+    ((dictAdd d k v).map (·.1)).Nodup := by
   induction d with
-  | nil => simp [dictSet]
+  | nil => simp [dictAdd]
   | cons kv rest ih =>
-    obtain ⟨k', v'⟩ := kv
-    unfold dictSet
-    by_cases h : k' = k
-    · subst h; simp only [if_true, List.mem_cons]; grind
-    · simp only [if_neg h, List.mem_cons]; grind
-
-theorem dictSet_nodup (d : List (String × String)) (k v : String) (h : (d.map (·.1)).Nodup) :
-    ((dictSet d k v).map (·.1)).Nodup := by
-  induction d with
-  | nil => simp [dictSet]
-  | cons kv rest ih =>
-    obtain ⟨k', v'⟩ := kv
-    unfold dictSet
+    obtain ⟨k', vs⟩ := kv
+    unfold dictAdd
     simp only [List.map_cons, List.nodup_cons] at h
     by_cases hk : k' = k
     · subst hk; simp only [if_true, List.map_cons, List.nodup_cons]; exact h
     · simp only [if_neg hk, List.map_cons, List.nodup_cons]
       refine ⟨?_, ih h.2⟩
       intro hm
-      rcases (mem_keys_dictSet rest k v k').mp hm with hm | hm
+      rcases (mem_keys_dictAdd rest k v k').mp hm with hm | hm
       · exact h.1 hm
       · exact hk hm
 
-theorem dictSet_of_not_mem (d : List (String × String)) (k v : String) (h : k ∉ d.map (·.1)) :
-    dictSet d k v = d ++ [(k, v)] := by
+theorem has_cons (kv : String × List String) (rest : List (String × List String)) (x n : String) :
+    Has (kv :: rest) x n ↔ (kv.1 = x ∧ n ∈ kv.2) ∨ Has rest x n := by
+  obtain ⟨k', vs⟩ := kv
+  unfold Has
+  constructor
+  · rintro ⟨ws, hm, hn⟩
+    rcases List.mem_cons.mp hm with e | hm
+    · injection e with e1 e2; subst e1; subst e2; exact .inl ⟨rfl, hn⟩
+    · exact .inr ⟨ws, hm, hn⟩
+  · rintro (⟨e, hn⟩ | ⟨ws, hm, hn⟩)
+    · simp only at e hn; subst e; exact ⟨vs, List.mem_cons_self, hn⟩
+    · exact ⟨ws, List.mem_cons_of_mem _ hm, hn⟩
+
+theorem has_dictAdd (d : List (String × List String)) (k v x n : String) :
+    Has (dictAdd d k v) x n ↔ Has d x n ∨ (x = k ∧ n = v) := by
   induction d with
-  | nil => rfl
+  | nil => simp [dictAdd, Has]; grind
   | cons kv rest ih =>
-    obtain ⟨k', v'⟩ := kv
-    simp only [List.map_cons, List.mem_cons, not_or] at h
-    unfold dictSet
-    rw [if_neg (fun e => h.1 e.symm), ih h.2]
-    rfl
+    obtain ⟨k', vs⟩ := kv
+    unfold dictAdd
+    by_cases h : k' = k
+    · subst h
+      simp only [if_true, has_cons, List.mem_append, List.mem_singleton]
+      grind
+    · simp only [if_neg h, has_cons, ih]
+      grind
 
 /-! ### the fold of `_load_injected_fixtures` -/
 
-abbrev step (d : List (String × String)) (a : Attr) : List (String × String) := dictSet d a.key a.name
+abbrev step (d : List (String × List String)) (a : Attr) : List (String × List String) := dictAdd d a.key a.name
 
-theorem mem_keys_fold (l : List Attr) : ∀ (acc : List (String × String)) (x : String),
+theorem mem_keys_fold (l : List Attr) : ∀ (acc : List (String × List String)) (x : String),
     x ∈ (l.foldl step acc).map (·.1) ↔ x ∈ acc.map (·.1) ∨ ∃ a ∈ l, a.key = x := by
   induction l with
   | nil => intro acc x; simp
   | cons a rest ih =>
     intro acc x
-    simp only [List.foldl_cons, ih, step, mem_keys_dictSet, List.mem_cons]
+    simp only [List.foldl_cons, ih, step, mem_keys_dictAdd, List.mem_cons]
     grind
 
-theorem mem_fold (l : List Attr) : ∀ (acc : List (String × String)) (p : String × String),
-    p ∈ l.foldl step acc → p ∈ acc ∨ ∃ a ∈ l, a.key = p.1 ∧ a.name = p.2 := by
+theorem has_fold (l : List Attr) : ∀ (acc : List (String × List String)) (x n : String),
+    Has (l.foldl step acc) x n ↔ Has acc x n ∨ ∃ a ∈ l, a.key = x ∧ a.name = n := by
   induction l with
-  | nil => intro acc p h; exact .inl h
+  | nil => intro acc x n; simp
   | cons a rest ih =>
-    intro acc p h
-    simp only [List.foldl_cons] at h
-    rcases ih _ p h with h | ⟨b, hb, e⟩
-    · rcases mem_dictSet acc a.key a.name p h with h | h
-      · exact .inl h
-      · exact .inr ⟨a, List.mem_cons_self, by rw [h], by rw [h]⟩
-    · exact .inr ⟨b, List.mem_cons_of_mem _ hb, e⟩
+    intro acc x n
+    simp only [List.foldl_cons, ih, step, has_dictAdd, List.mem_cons]
+    grind
 
-theorem fold_nodup (l : List Attr) : ∀ (acc : List (String × String)), (acc.map (·.1)).Nodup →
+theorem fold_nodup (l : List Attr) : ∀ (acc : List (String × List String)), (acc.map (·.1)).Nodup →
     ((l.foldl step acc).map (·.1)).Nodup := by
   induction l with
   | nil => intro acc h; exact h
-  | cons a rest ih => intro acc h; exact ih _ (dictSet_nodup acc a.key a.name h)
-
-theorem fold_eq_append (l : List Attr) : ∀ (acc : List (String × String)),
-    (acc.map (·.1) ++ l.map Attr.key).Nodup →
-    l.foldl step acc = acc ++ l.map (fun a => (a.key, a.name)) := by
-  induction l with
-  | nil => intro acc _; simp
-  | cons a rest ih =>
-    intro acc h
-    have hk : a.key ∉ acc.map (·.1) := by
-      intro hm
-      have := (List.nodup_append.mp h).2.2 _ hm a.key (by simp)
-      exact this rfl
-    simp only [List.foldl_cons, step, dictSet_of_not_mem acc a.key a.name hk]
-    rw [ih]
-    · simp
-    · have : (acc ++ [(a.key, a.name)]).map (·.1) ++ rest.map Attr.key
-          = acc.map (·.1) ++ (a :: rest).map Attr.key := by simp
-      rw [this]; exact h
+  | cons a rest ih => intro acc h; exact ih _ (dictAdd_nodup acc a.key a.name h)
 
 /-! ### facts about `loadInjected` -/
 
 theorem mem_injectedNames (attrs : List Attr) (x : String) :
     x ∈ injectedNames attrs ↔ ∃ a ∈ attrs, a.discovered = true ∧ a.key = x := by
   unfold injectedNames loadInjected
-  rw [show (fun d (a : Attr) => dictSet d a.key a.name) = step from rfl, mem_keys_fold]
+  rw [show (fun d (a : Attr) => dictAdd d a.key a.name) = step from rfl, mem_keys_fold]
   simp only [List.map_nil, List.not_mem_nil, false_or, List.mem_filter]
   constructor
   · rintro ⟨a, ⟨h1, h2⟩, h3⟩; exact ⟨a, h1, h2, h3⟩
@@ -129,20 +115,28 @@ theorem injectedNames_nodup (attrs : List Attr) : (injectedNames attrs).Nodup :=
   unfold injectedNames loadInjected
   exact fold_nodup _ [] (by simp)
 
-theorem mem_loadInjected (attrs : List Attr) (p : String × String) (h : p ∈ loadInjected attrs) :
-    ∃ a ∈ attrs, a.discovered = true ∧ a.key = p.1 ∧ a.name = p.2 := by
-  unfold loadInjected at h
-  rcases mem_fold _ [] p h with h | ⟨a, ha, e⟩
-  · simp at h
-  · obtain ⟨h1, h2⟩ := List.mem_filter.mp ha
-    exact ⟨a, h1, h2, e⟩
-
-theorem loadInjected_of_nodup (attrs : List Attr)
-    (h : ((attrs.filter Attr.discovered).map Attr.key).Nodup) :
-    loadInjected attrs = (attrs.filter Attr.discovered).map (fun a => (a.key, a.name)) := by
+/-- the dict holds attribute `n` under fixture `x` iff a discovered declaration `n = inject_fixture(x)` exists -/
+theorem has_loadInjected (attrs : List Attr) (x n : String) :
+    Has (loadInjected attrs) x n ↔ ∃ a ∈ attrs, a.discovered = true ∧ a.key = x ∧ a.name = n := by
   unfold loadInjected
-  rw [show (fun d (a : Attr) => dictSet d a.key a.name) = step from rfl, fold_eq_append _ [] (by simpa using h)]
-  simp
+  rw [show (fun d (a : Attr) => dictAdd d a.key a.name) = step from rfl, has_fold]
+  have h0 : ¬ Has [] x n := by rintro ⟨_, hm, _⟩; cases hm
+  simp only [h0, false_or, List.mem_filter]
+  constructor
+  · rintro ⟨a, ⟨h1, h2⟩, h3⟩; exact ⟨a, h1, h2, h3⟩
+  · rintro ⟨a, h1, h2, h3⟩; exact ⟨a, ⟨h1, h2⟩, h3⟩
+
+theorem mem_assigned (attrs : List Attr) (n : String) :
+    n ∈ assigned attrs ↔ ∃ a ∈ attrs, a.discovered = true ∧ a.name = n := by
+  unfold assigned
+  rw [List.mem_flatMap]
+  constructor
+  · rintro ⟨⟨x, vs⟩, hm, hn⟩
+    obtain ⟨a, ha, hd, _, hname⟩ := (has_loadInjected attrs x n).mp ⟨vs, hm, hn⟩
+    exact ⟨a, ha, hd, hname⟩
+  · rintro ⟨a, ha, hd, hname⟩
+    obtain ⟨vs, hm, hn⟩ := (has_loadInjected attrs a.key n).mpr ⟨a, ha, hd, rfl, hname⟩
+    exact ⟨(a.key, vs), hm, hn⟩
 
 /-! ### declared tree ↔ lowered tree -/
 
